@@ -445,6 +445,7 @@ fn run_schedules(cfg: &RunCfg, agg: &Mutex<Agg>, seeds: &[u64]) {
         .map(|s| schedule(*s).iter().map(|(kind, rs, _)| role(*kind, *rs, false)).collect())
         .collect();
     let next = AtomicU64::new(0);
+    let deadlocks = AtomicU64::new(0);
     let signatures: Mutex<BTreeSet<String>> = Mutex::new(BTreeSet::new());
     let first_initialisers: Mutex<BTreeSet<String>> = Mutex::new(BTreeSet::new());
     // a child uses up to 16 threads itself; keep a few children in flight so
@@ -454,7 +455,9 @@ fn run_schedules(cfg: &RunCfg, agg: &Mutex<Agg>, seeds: &[u64]) {
         for _ in 0..parallel {
             s.spawn(|| loop {
                 let i = next.fetch_add(1, Ordering::Relaxed) as usize;
-                if i >= seeds.len() || Instant::now() > cfg.deadline {
+                // three confirmed deadlocks are enough: every further one costs
+                // a full watchdog period
+                if i >= seeds.len() || Instant::now() > cfg.deadline || deadlocks.load(Ordering::Relaxed) >= 3 {
                     break;
                 }
                 let seed = seeds[i];
@@ -499,10 +502,12 @@ fn run_schedules(cfg: &RunCfg, agg: &Mutex<Agg>, seeds: &[u64]) {
                     let _ = child.kill();
                     let _ = child.wait();
                     match (a, b) {
-                        (Some((true, c1)), Some((true, c2))) if c1 == c2 => out.violate(
+                        (Some((true, c1)), Some((true, c2))) if c1 == c2 => {
+                            deadlocks.fetch_add(1, Ordering::Relaxed);
+                            out.violate(
                             "C16:deadlock",
                             format!("{desc}: no progress for 90 s, every thread sleeping and no CPU time consumed over 1 s"),
-                        ),
+                        )}
                         _ => out.inconclusive.push(format!("{desc}: watchdog expired but threads were still running (slow, not deadlocked)")),
                     }
                     agg.lock().unwrap().absorb("schedules", seed, out);
